@@ -333,7 +333,7 @@ class Ctx:
         return d.value
 
     # -- obligations ------------------------------------------------------------------------
-    def prove(self, name, goal, kind="post", info=None, extra_pool=(), pool=None, live=(), without=()):
+    def prove(self, name, goal, kind="post", info=None, extra_pool=(), pool=None, live=(), without=(), abstract_products=False):
         """pool: explicit instantiation terms for this obligation (instead of the path's whole index pool)
         live: skolem variables the claim is deliberately quantified over although the goal term does not mention them
         (the obligation then reads  forall live. guards(live) -> goal)
@@ -352,6 +352,8 @@ class Ctx:
             guards = [g for g in guards if not (consts_of(g) & dead)]
         if without:
             schemas = [sc for sc in schemas if not any(w in sc.name for w in without)]
+        if abstract_products:
+            info = dict(info or {}, abstract_products=True)
         ob = Obligation(name, hyps, schemas, use, goal, kind, info, derivers=self.derivers)
         ob.guards = list(guards)
         ob.dropped_for_dead_skolems = len(self.hyps) - len(hyps) + len(self.schemas) - len(schemas)
@@ -454,10 +456,55 @@ def explore(run, max_paths=400, **ctx_kw):
 # discharge
 
 
+_MUL_ABS = z3.Function("mul_abs", z3.IntSort(), z3.IntSort(), z3.IntSort())
+
+
+def abstract_products(e, cache):
+    """e with every product of two or more non-numeral integer factors rewritten to an application of the uninterpreted function mul_abs (operand
+    order kept).  A sound weakening: what is proved with an arbitrary binary function in place of `*` holds for `*`.  It turns "the same product, up
+    to equal operands" into plain congruence, which the solver decides reliably, where the nonlinear arithmetic heuristics do not."""
+    k = e.get_id()
+    if k in cache:
+        return cache[k]
+    if not z3.is_app(e) or e.num_args() == 0:
+        cache[k] = e
+        return e
+    kids = [abstract_products(c, cache) for c in e.children()]
+    if e.decl().kind() == z3.Z3_OP_MUL and z3.is_int(e):
+        nums = [c for c in kids if z3.is_int_value(c)]
+        rest = [c for c in kids if not z3.is_int_value(c)]
+        if len(rest) >= 2:
+            acc = rest[0]
+            for c in rest[1:]:
+                acc = _MUL_ABS(acc, c)
+            for c in nums:
+                acc = c * acc
+            cache[k] = acc
+            return acc
+    r = e.decl()(*kids)
+    cache[k] = r
+    return r
+
+
 def discharge(ob, timeout_ms=10000, use_native=True):
     """Decide one obligation.  status in {'proved','refuted','undecided'}."""
     t0 = time.time()
     inst = instantiate(ob.schemas, ob.pool)
+    if ob.info.get("abstract_products"):
+        # first attempt with products as an uninterpreted function (see abstract_products); only a proof counts, anything else falls through to
+        # the ordinary attempt with real multiplication
+        cache = {}
+        s0 = z3.Solver()
+        s0.set("timeout", timeout_ms)
+        for h in list(ob.hyps) + list(inst):
+            s0.add(abstract_products(h, cache))
+        s0.add(z3.Not(abstract_products(ob.goal, cache)))
+        if s0.check() == z3.unsat:
+            ob.solver = "z3-" + z3.get_version_string()
+            ob.status = "proved"
+            ob.reason = "products abstracted as an uninterpreted function"
+            ob.time = time.time() - t0
+            return ob
 
     def attempt(native):
         s = z3.Solver()
